@@ -48,7 +48,7 @@ pub fn inc_case(neutral_only: bool) -> impl Strategy<Value = IncCase> {
         (0u8..4, 0u8..14, any::<bool>(), any::<bool>(), any::<bool>(), any::<bool>()),
         (0u8..14, any::<bool>(), any::<bool>()),
         tree_spec(10, true),
-        prop::collection::vec((0u8..20, any::<u8>()), if neutral_only { 0..=4 } else { 1..=6 }),
+        prop::collection::vec((0u8..21, any::<u8>()), if neutral_only { 0..=4 } else { 1..=6 }),
         (0u8..3, any::<bool>(), any::<bool>()),
     )
         .prop_map(
@@ -377,7 +377,7 @@ fn bump_mtime(p: &Path, counter: &mut i64) {
     set_mtime(p, 1_900_000_000 + *counter, (*counter * 7919) % 1_000_000_000);
 }
 
-pub const OPS: [&str; 20] = [
+pub const OPS: [&str; 21] = [
     "overwrite-same-length",
     "overwrite-restore-mtime",
     "append",
@@ -398,6 +398,7 @@ pub const OPS: [&str; 20] = [
     "edit-producer-output",
     "no-op",
     "touch-non-matching",
+    "overwrite-older-mtime",
 ];
 /// Operations that never change a declared resource.
 pub const NEUTRAL_OPS: [u8; 6] = [4, 9, 12, 13, 18, 19];
@@ -441,6 +442,20 @@ pub fn apply_edit(w: &World, case: &IncCase, op: u8, sel: u8, counter: &mut i64)
             c[0] = c[0].wrapping_add(1);
             std::fs::write(&p, c).ok()?;
             set_mtime(&p, md.mtime(), md.mtime_nsec());
+        }
+        "overwrite-older-mtime" => {
+            // e.g. a file restored from a backup: new content, modification time in the past
+            let p = pick(&own_files)?;
+            let md = std::fs::metadata(&p).ok()?;
+            let mut c = std::fs::read(&p).ok()?;
+            if c.is_empty() {
+                c.push(b'x');
+            } else {
+                c[0] = c[0].wrapping_add(1);
+            }
+            std::fs::write(&p, c).ok()?;
+            set_mtime(&p, md.mtime() - 1000 - *counter, md.mtime_nsec());
+            *counter += 1;
         }
         "append" => {
             let p = pick(&own_files)?;
@@ -827,9 +842,24 @@ pub fn eval_inc_bb(case: &IncCase, which: &str) -> CaseResult {
         }
     };
     let args = vec!["c".to_string()];
+    let spelling = std::cell::Cell::new(0u8);
     let run = |w: &World| -> Option<(bool, ZOutcome)> {
         w.sb.clear_trace();
-        let out = run_zinoma(&w.sb, &w.root, &args, &[], std::time::Duration::from_secs(40), true);
+        // the project directory is spelled differently from one invocation to the next
+        let k = spelling.get();
+        spelling.set(k + 1);
+        let dir = match (k + case.extra_invocations) % 3 {
+            0 => w.root.clone(),
+            1 => w.root.join("src").join(".."),
+            _ => {
+                let link = w.sb.path("plink");
+                if std::fs::symlink_metadata(&link).is_err() {
+                    let _ = std::os::unix::fs::symlink(&w.root, &link);
+                }
+                link
+            }
+        };
+        let out = run_zinoma(&w.sb, &dir, &args, &[], std::time::Duration::from_secs(40), true);
         if out.timed_out {
             return None;
         }
